@@ -263,7 +263,7 @@ func loadSlot(base *Agg, idx int) Value {
 // strings
 
 func (in *Interp) strBytes(s Str) []*Term {
-	if s.Num != nil {
+	if s.Num != nil || s.FloatOf != nil {
 		panic(abortf("byte-level use of a numeric string"))
 	}
 	if s.B != nil {
@@ -290,7 +290,7 @@ func (in *Interp) mkStr(b []*Term) Str {
 }
 
 func (in *Interp) strEq(a, b Str) *Term {
-	if a.Num != nil || b.Num != nil {
+	if a.Num != nil || b.Num != nil || a.FloatOf != nil || b.FloatOf != nil {
 		return in.numStrEq(a, b)
 	}
 	if a.Len() != b.Len() {
@@ -434,6 +434,13 @@ func fmtVal(v Value) string {
 
 // numStrEq: equality where at least one side is a numeric (or float) opaque string.
 func (in *Interp) numStrEq(a, b Str) *Term {
+	if a.FloatOf != nil || b.FloatOf != nil {
+		if a.FloatOf != nil && b.FloatOf != nil {
+			// same text iff same float (NaN texts are equal to each other)
+			return in.ts.Or(in.ts.FCmp(OFEq, a.FloatOf, b.FloatOf), in.ts.And(in.ts.FIsNaN(a.FloatOf), in.ts.FIsNaN(b.FloatOf)))
+		}
+		panic(abortf("comparison of a float text with other bytes"))
+	}
 	if a.Num != nil && b.Num != nil {
 		return in.ts.Eq(a.Num, b.Num)
 	}
@@ -449,3 +456,6 @@ func (in *Interp) numStrEq(a, b Str) *Term {
 	}
 	panic(abortf("comparison of numeric string with symbolic bytes"))
 }
+
+// opaque: a []byte backing store that stands for the text of a symbolic number (no byte-level view).
+func (a *Agg) opaque() bool { return a != nil && (a.Num != nil || a.FloatOf != nil) }
